@@ -243,7 +243,7 @@ func genC13(tier string, rng *Rng) {
 	// ---- 2. structured random topologies: duplicate ids, type 0, missing types, tricky empties
 	n2 := 6000
 	if thorough {
-		n2 = 120000
+		n2 = 60000
 	}
 	for i := 0; i < n2; i++ {
 		o := &fillOpt{rng: rng, allowNaN: rng.Intn(4) == 0, tricky: rng.Intn(2) == 0, pPresent: 30 + rng.Intn(60), maxSlice: 3, depthLimit: 5}
